@@ -85,8 +85,9 @@ class Report:
                 return v
         blob = json.dumps(replay, sort_keys=True, default=str)
         h = hashlib.sha1((self.prop + key + blob).encode()).hexdigest()[:10]
-        os.makedirs(os.path.join(VERIF, "replays"), exist_ok=True)
-        path = os.path.join(VERIF, "replays", "%s-%s.json" % (self.prop, h))
+        rdir = os.environ.get("SXV_REPLAY_DIR") or os.path.join(VERIF, "replays")
+        os.makedirs(rdir, exist_ok=True)
+        path = os.path.join(rdir, "%s-%s.json" % (self.prop, h))
         with open(path, "w") as f:
             json.dump({"property": self.prop, "key": key, "what": what, "replay": replay}, f, indent=1, default=str)
         v = {"key": key, "what": what, "replay_file": path, "count": 1}
@@ -156,8 +157,9 @@ class Report:
         ev = {"property_id": self.prop, "tier": self.tier, "seed": self.seed, "level": self.level,
               "coverage": cov, "assumptions": self.assumptions, "wall_s": round(time.time() - self.t0, 2),
               "violations": len(unknown_viol)}
-        os.makedirs(os.path.join(VERIF, "evidence"), exist_ok=True)
-        with open(os.path.join(VERIF, "evidence", self.prop + ".json"), "w") as f:
+        edir = os.environ.get("SXV_EVIDENCE_DIR") or os.path.join(VERIF, "evidence")
+        os.makedirs(edir, exist_ok=True)
+        with open(os.path.join(edir, self.prop + ".json"), "w") as f:
             json.dump(ev, f, indent=1, default=str)
         print("%s tier=%s paths=%d queries=%d unsat=%d sat=%d unknown=%d wall=%.1fs violations=%d known=%d%s" % (
             self.prop, self.tier, tot["feasible_paths"], tot["queries"], tot["unsat"], tot["sat"], tot["unknown"],
